@@ -240,7 +240,7 @@ def check_combo(job, acc):
                         # need a value
                         put(state, store + (child,),
                             33 if leafkids else {})
-                for route in ('engine', 'store'):
+                for route in ('engine', 'store', 'engine+undeclared'):
                     case = dict(label, explicit=list(subset),
                                 children=list(named), route=route)
                     acc.case(key=(combo, place, default_mode, subset, named,
@@ -248,7 +248,17 @@ def check_combo(job, acc):
                              outcome=f'{len(combo)}proc:{route}',
                              nontrivial=True)
                     try:
-                        tree = construct(procs, place, state, route)
+                        if route == 'engine+undeclared':
+                            # the initial state comes from a larger model:
+                            # every dictionary STARTS with a key nobody
+                            # declares (ignored; the declared keys after
+                            # it still count)
+                            tree = construct(
+                                procs, place,
+                                with_undeclared(state, set(children)),
+                                'engine')
+                        else:
+                            tree = construct(procs, place, state, route)
                     except Exception as e:  # noqa
                         acc.violate(fw.violation(
                             'C15.crash', f'{type(e).__name__}',
@@ -302,6 +312,16 @@ def check_combo(job, acc):
         acc.sample({'processes': [(n, s, t) for n, s, t in procs],
                     'place': place, 'defaults': default_mode,
                     'nodes': plain_nodes})
+
+
+def with_undeclared(state, glob_stores, path=()):
+    out = {}
+    if path not in glob_stores:
+        out['aa_undeclared'] = {'deep': {'x': 1}}
+    for k, v in state.items():
+        out[k] = with_undeclared(v, glob_stores, path + (k,)) \
+            if isinstance(v, dict) and v else v
+    return out
 
 
 def glob_vars(procs, store, place):
@@ -408,7 +428,7 @@ def composite_state_cases(acc):
     for (ka, ta), (kb, tb) in itertools.product(opts, repeat=2):
         if 'glob' in ka or 'glob' in kb:
             continue
-        for place in ((), ('c',)):
+        for place, byref in itertools.product(((), ('c',)), (False, True)):
             if len(place) < max(kinds[ka][1][ta][1], kinds[kb][1][tb][1]):
                 continue
             ps = [('procA', {'port': kinds[ka][0]()},
@@ -421,10 +441,12 @@ def composite_state_cases(acc):
                     a != b and b[:len(a)] == a for a in nodes
                     for b in nodes):
                 continue
-            case = {'composite_state': [(ka, ta), (kb, tb)], 'place': place}
-            acc.case(key=('composite', ka, ta, kb, tb, place),
+            case = {'composite_state': [(ka, ta), (kb, tb)], 'place': place,
+                    'init_by_reference': byref}
+            acc.case(key=('composite', ka, ta, kb, tb, place, byref),
                      outcome='composite-state')
             processes, topology = {}, {}
+            kept = []
             want_init, want_def = {}, {}
             for i, ((name, schema, topo), m) in enumerate(zip(ps, maps)):
                 init = {}
@@ -438,7 +460,8 @@ def composite_state_cases(acc):
                     put(want_def, n, 40 + nodes.index(n))
                 put(processes, place + (name,), probes.Probe(
                     {'pid': name, 'schema': schema, 'init': init,
-                     'log_states': False}))
+                     'init_by_reference': byref, 'log_states': False}))
+                kept.append((name, init, copy.deepcopy(init)))
                 put(topology, place + (name,), topo)
             comp = Composite({'processes': processes, 'topology': topology})
             try:
@@ -491,6 +514,14 @@ def composite_state_cases(acc):
                     f'generate_store() after initial_state(config) built '
                     f'{first} = {get(probes.pure(store.get_value()), first)}'
                     f', expected {get(got_init, first)}', case))
+            for name, init, before in kept:
+                if init != before:
+                    acc.violate(fw.violation(
+                        'C15.composite', 'process-initial-state-written',
+                        f'{name} returns its own dictionary from '
+                        f'initial_state(); after the composite\'s '
+                        f'initial_state() calls it holds {init}, it was '
+                        f'{before}', case))
             if got_def != want_def:
                 acc.violate(fw.violation(
                     'C15.composite', 'default_state-misplaced',
@@ -741,11 +772,61 @@ def special_cases_3(acc):
                     f'expected {want}', case))
 
 
+def special_cases_4(acc):
+    """(f) one process returns a dictionary it keeps from initial_state();
+    two of its ports are wired to ONE store (and a second process and the
+    caller's explicit initial state write to that store as well): every
+    call of the composite's initial_state() gives the same answer and the
+    process's own dictionary is never written."""
+    leaf = shapes.leaf
+    for two_procs, explicit in itertools.product((False, True), repeat=2):
+        case = {'special': 'kept-initial-state', 'two_procs': two_procs,
+                'explicit': explicit}
+        acc.case(key=('special', 'kept-init', two_procs, explicit),
+                 outcome='special')
+        own = {'p1': {'sub': {'a': 1}}, 'p2': {'sub': {'b': 2}}}
+        before = copy.deepcopy(own)
+        schema = {pt: {'sub': {'a': leaf(0), 'b': leaf(0), 'c': leaf(0)}}
+                  for pt in ('p1', 'p2')}
+        processes = {'p': probes.Probe({
+            'pid': 'p', 'log_states': False, 'schema': schema,
+            'init': own, 'init_by_reference': True})}
+        topology = {'p': {'p1': ('store',), 'p2': ('store',)}}
+        want = {'store': {'sub': {'a': 1, 'b': 2}}}
+        if two_procs:
+            processes['q'] = probes.Probe({
+                'pid': 'q', 'log_states': False,
+                'schema': {'p1': {'sub': {'c': leaf(0)}}},
+                'init': {'p1': {'sub': {'c': 3}}}})
+            topology['q'] = {'p1': ('store',)}
+            want['store']['sub']['c'] = 3
+        try:
+            comp = Composite({'processes': processes, 'topology': topology})
+            got = [comp.initial_state()]
+            if explicit:
+                comp.initial_state({'initial_state': {
+                    'store': {'sub': {'a': -5, 'b': -6}}}})
+            got.append(comp.initial_state())
+        except Exception as e:  # noqa
+            acc.violate(fw.violation(
+                'C15.crash', f'kept-init:{type(e).__name__}',
+                f'{case}: {e!r}', case))
+            continue
+        if got != [want, want] or own != before:
+            acc.violate(fw.violation(
+                'C15.composite', 'process-initial-state-written',
+                f'two ports on one store (second process: {two_procs}, '
+                f'explicit call in between: {explicit}): initial_state() '
+                f'gave {got}, expected twice {want}; the dictionary the '
+                f'process keeps is {own}, it was {before}', case))
+
+
 def run_job(job, acc):
     if job[0] == 'special':
         special_cases(acc)
         special_cases_2(acc)
         special_cases_3(acc)
+        special_cases_4(acc)
         return
     if job[0] == 'conflicts':
         conflict_cases(acc)
@@ -778,6 +859,7 @@ def replay(case):
         special_cases(acc)
         special_cases_2(acc)
         special_cases_3(acc)
+        special_cases_4(acc)
     elif 'conflict' in case:
         conflict_cases(acc)
     elif 'composite_state' in case:
@@ -789,4 +871,7 @@ def replay(case):
 
 
 RULE += (
-    ' Special cases: glob co-declarers (only one gives the default), stores built again after a declared default changed, two processes handing out ONE schema object of which one carries an override.')
+    ' Special cases: glob co-declarers (only one gives the default), stores built again after a declared default changed, two processes handing out ONE schema object of which one carries an override, processes that return a dictionary they KEEP from initial_state() (all composite cases run in both modes; two ports on one store; an explicit call in between): every initial_state() call answers the same and the kept dictionary is never written.')
+
+RULE += (
+    ' Route engine+undeclared: the explicit initial state also names keys that NO process declares, listed before the declared ones - declared variables still get their explicit value and glob children are still created. Conflicts between dictionary- and array-valued declarations (different keys / shapes) must raise.')
